@@ -8,7 +8,7 @@ package docker
 // released); the client talks to tcp://address:port with the scanner's scheme and HTTP client; a record iff the
 // Info request succeeded; the ServerVersion request is best effort.
 //@ func (*Scanner).Scan
-//@   props C10 C08
+//@   props C10 C08 C01 C02 C14
 //@   observe context.WithTimeout, String, fmt.Sprintf, WithHTTPClient, WithScheme, WithHost, NewClientWithOpts, Info, ServerVersion, cancel
 //@   entry row noclient: [call context.WithTimeout(ctx, s.dataTimeout) as (c2, cf) ; call String(r.DstIP) as (ips) ; call fmt.Sprintf("tcp://%s:%d", bind_a) as (host) ;
 //@                        call WithHTTPClient(s.client) as (o1) ; call WithScheme(s.proto) as (o2) ; call WithHost(host) as (o3) ; call NewClientWithOpts(bind_os) as (cl, e) ; call cancel()]
@@ -27,11 +27,11 @@ package docker
 
 // C02 / C10: private transport without proxy (see pkg/scan/elastic); defaults first, then the options in order
 //@ func WithDataTimeout$1
-//@   props C10 C08
+//@   props C10 C08 C01 C02 C14
 //@   modifies s.dataTimeout
 //@   ensures s.dataTimeout == timeout
 //@ func NewScanner
-//@   props C02 C10 C08
+//@   props C02 C10 C08 C01 C14
 //@   observe o
 //@   entry row init:  [] when s.proto == proto && s.client.Timeout == 0 && isptr(s.client.Transport, http.Transport) && fresh(asptr(s.client.Transport, http.Transport))
 //@                       && asptr(s.client.Transport, http.Transport).Proxy == nil && asptr(s.client.Transport, http.Transport).DialContext == nil && asptr(s.client.Transport, http.Transport).DisableKeepAlives -> loop 0
@@ -52,5 +52,5 @@ package docker
 // option constructors: each returns its own option closure over exactly its argument (verified here, inlined at call sites)
 //@ func WithDataTimeout
 //@   inline
-//@   props C10 C08
+//@   props C10 C08 C01 C02 C14
 //@   ensures closureof(ret, "WithDataTimeout$1") && capt(ret, "timeout") == timeout
